@@ -1,0 +1,14 @@
+//go:build verif
+
+package build
+
+import "io/fs"
+
+// VerifReadReleaseData calls readReleaseData (os-release reader) for the verification harness.
+func VerifReadReleaseData(fsys fs.FS) (id, name, versionID string, err error) {
+	d, err := readReleaseData(fsys)
+	if err != nil || d == nil {
+		return "", "", "", err
+	}
+	return d.ID, d.Name, d.VersionID, nil
+}
